@@ -14,6 +14,7 @@ pub mod c18;
 pub mod sectors;
 pub mod power_ds;
 pub mod sectors_actor;
+pub mod market;
 
 #[derive(Clone, Debug)]
 pub struct RunCfg {
